@@ -333,9 +333,18 @@ def run_check(mod, tier, seed, replay=None):
             txt = m.group(1).strip() if m else "?"
             coqchk_axioms = [] if txt == "<none>" else [l.strip() for l in txt.splitlines() if l.strip()]
             allowed = set(getattr(mod, "ALLOWED_AXIOMS", []))
+            # coqchk lists every primitive/axiom of every loaded library: the standard library's native
+            # binary64/int63 primitives and their specification axioms are accepted (and reported)
+            stdlib = ("Coq.Floats.", "Coq.Numbers.Cyclic.Int63.")
             for ax in coqchk_axioms:
+                if ax.startswith(stdlib):
+                    continue
                 if ax.split(".")[-1] not in allowed and ax not in allowed:
                     broken.append("coqchk reports a non-allow-listed axiom " + ax)
+            nprim = sum(1 for ax in coqchk_axioms if ax.startswith(stdlib))
+            if nprim:
+                trusted.append("stdlib native float/int63 primitives and their axioms as listed by coqchk (%d entries)" % nprim)
+                coqchk_axioms = [ax for ax in coqchk_axioms if not ax.startswith(stdlib)] + ["<%d stdlib Coq.Floats / Coq.Numbers.Cyclic.Int63 entries>" % nprim]
 
     # 2. cases
     rng = random.Random(seed)
